@@ -238,6 +238,12 @@ func stateSchemaClosed(s *Scanner, c byte) *jerr.JApiError {
 		s.foundAt(s.curIndex-1, SchemaEnd)
 		s.step = stateExpectKeyword
 		return nil
+	case CommentSign:
+		// a comment right after the schema: the schema library takes it with the schema when a line break follows it,
+		// but not when the file ends there
+		s.foundAt(s.curIndex-1, SchemaEnd)
+		s.step = stateBodyEnded
+		return s.startComment()
 	default:
 		return s.japiErrorUnexpectedChar("after schema", "")
 	}
